@@ -102,12 +102,15 @@ CLAIMED = {
              "tools/cborgen.py rewrites, Spec/Cdns.lean.",
         technique="Lean 4 proof at decoder level + metamorphic differential testing with an independent Lean reader as equivalence oracle", design="§4 C08"),
     "C09": dict(
-        text="Lean 4: preamble keys = RFC 8618 (translator-regenerated), encoder->decoder round trip for every member kind the preamble uses "
-             "(uint/text/bytes/bool, C06+C07). Struct level decided on the implementation: random preambles (versions 0..255, optional private "
-             "version, 1..8 parameter sets, every optional subset, full-width integers, empty/long lists, arbitrary text, collection parameters "
-             "absent/empty/partial/full) written and read back by the library reader and by the independent Lean reader, member for member.",
-        note="Partial proof: generic schema round-trip theorem pending; tie is differential. Trusted: harness records.h renders every member.",
-        technique="Lean 4 proof of member-kind round trips + differential write/read with an independent Lean reader", design="§4 C09"),
+        text="Lean 4: one generic interpreter of the struct write/read functions (Model/Schema) instantiated for FilePreamble -> BlockParameters -> "
+             "StorageParameters -> StorageHints/CollectionParameters with keys regenerated from the source; theorems struct_roundtrip / "
+             "preamble_roundtrip (read (write v) = v with nothing left over, for EVERY schema and conforming value, at any buffer offset via "
+             "runW_refines) and struct_output_wellformed; preamble keys = RFC 8618. The model reader/writer is tied to the code by writing random "
+             "preambles (versions 0..255, optional private version, 1..8 parameter sets, every optional subset, full-width integers, empty/long "
+             "lists, arbitrary text, collection parameters absent/empty/partial/full) with the library and comparing bytes with the model writer "
+             "and values with the library reader, the model reader and the independent Lean reader, member for member.",
+        note="Trusted: Model/Structs.lean schema table (member kinds, optionality) - checked only by the correspondence; harness records.h renders every member.",
+        technique="Lean 4 proof (generic schema round trip) + differential write/read against the model and an independent Lean reader", design="§4 C09"),
     "C11": dict(
         text="Lean 4 theorems over a model of BlockTable/KeyRef with explicit storage (any element type, any hash with HashOk): add_spec "
              "(returns the index of an equal entry; existing value -> same index, table unchanged; new value -> appended), add_idempotent, "
